@@ -94,6 +94,20 @@ class CFG:
             a = self._block(st.body, [(t.id, "T")])
             b = self._block(st.orelse, [(t.id, "F")]) if st.orelse else [(t.id, "F")]
             return a + b
+        if hasattr(ast, "Match") and isinstance(st, ast.Match):
+            t = self._new("test", st.subject, st)
+            self.by_ast[id(st)] = t.id
+            self._connect(preds, t.id)
+            self._maybe_exc(t.id)
+            outs = []
+            irrefutable = False
+            for case in st.cases:
+                outs += self._block(case.body, [(t.id, "T")])
+                if case.guard is None and isinstance(case.pattern, ast.MatchAs) and case.pattern.pattern is None:
+                    irrefutable = True
+            if not irrefutable:
+                outs.append((t.id, "F"))
+            return outs
         if isinstance(st, ast.While):
             t = self._new("test", st.test, st)
             self.by_ast[id(st)] = t.id
